@@ -8,6 +8,7 @@ from petl.util.materialise import cache as petl_cache
 from hypothesis import strategies as st
 
 from pv import gen, codec
+from pv import scale
 from pv.core import Sub, Fail, exc_fail
 from pv.props.c15 import _target, _raw, KINDS
 
@@ -49,7 +50,22 @@ def pass_case(draw, tier):
     return c
 
 
+def _scaled(case, ctx, longcell=False):
+    """One case in twenty at scale: the rows repeated past 1000 / an 8 KiB buffer; for the tees sometimes one cell of more
+    than 8 KiB (in the third row, so that smaller rows come before and after it)."""
+    b = scale.derive(case, odds=20, sizes=[130, 300, 1001, 1025, 2049], wide=False)
+    if not b or len(case["table"]) < 2:
+        return case
+    tbl = scale.apply(case["table"], b)
+    if longcell and b["rows"] % 2 and len(tbl) > 3 and tbl[3]:
+        tbl[3][0] = "L" * 9000
+        ctx.label("long-cell")
+    scale.label(ctx, b)
+    return dict(case, table=tbl)
+
+
 def check_pass(case, ctx):
+    case = _scaled(case, ctx)
     op, tbl = case["op"], case["table"]
     conv = tuple if case["rowtype"] == "tuple" else list
     src = [conv(r) for r in codec.snapshot(tbl)]
@@ -192,6 +208,7 @@ def tee_case(draw, tier):
 
 
 def check_tee(case, ctx):
+    case = _scaled(case, ctx, longcell=True)
     fmt, tbl, kind, kw = case["fmt"], case["table"], case["kind"], dict(case["kw"])
     tee = getattr(etl, "tee" + fmt)
     to = getattr(etl, "to" + fmt)
